@@ -356,16 +356,16 @@ def law_lists(c: List[int], np: int, i: int) -> bool:
     return H.done(ok)
 
 
-def law_split_enum(c: List[int], np: int, i: int) -> bool:
+def law_split_enum(c: List[int], np: int, i: int, it: bool) -> bool:
     """
     pre: len(c) <= N and -1 <= np < len(c) and 0 <= i <= len(c) + 1
     post: _
     """
     t = nn(c, np)
-    ok = True
-    for P in (pres_tuple, pres_iter):
-        parts = fin(M('splitAt', P(t), i))
-        ok = ok and same(parts[0] + parts[1], list(t)) and len(parts[0]) == (i if i < len(t) else len(t))
+    P = pres_iter if it else pres_tuple
+    parts = fin(M('splitAt', P(t), i))
+    ok = same(parts[0] + parts[1], list(t)) and len(parts[0]) == (i if i < len(t) else len(t))
+    if i == 0:
         en = fin(M('enumerate', P(t)))
         ok = ok and len(en) == len(t) and same([p[0] for p in en], list(range(len(t))))
         ok = ok and same([p[1] for p in en], list(t))
@@ -647,7 +647,7 @@ def conditions(tier, seed):
                     if cs['api'] is not None:
                         if cn == 0:
                             out.append(cond_for(key, cs, lams, 'api', n, nd, nones, margin, t, emax=1))
-                        elif has_lam and cs['text'] and cn == 1 and not alias:
+                        elif has_lam and cs['text'] and cn == 1 and not alias and not cid.startswith('generate'):
                             # the second lambda of the family goes through YAQL text (yaql lambda, parser-level call);
                             # half of these per run, rotated by VERIF_SEED
                             ntext += 1
@@ -700,15 +700,14 @@ def conditions(tier, seed):
     halves = [list(range(0, NOPS, 2)), list(range(1, NOPS, 2))]
     if quick:
         # per run: two first operators x one third of the second operators, rotated by VERIF_SEED (thorough: all)
-        for s1 in [s for s in range(NOPS) if s % 9 == seed % 9]:
-            tn = (seed // 9 + s1) % 3
-            third = list(range(tn, NOPS, 3))
-            out.append({'name': 'pipe2[%s|third%d]' % (OPS[s1][0], tn), 'func': 'h_pipe', 'timeout': 200,
-                        'param': {'s1': s1, 'depth': 2, 'mode': 'api', 'n': 2, 's2set': third, 'imargin': 0},
-                        'bounds': '$c.%s.<op2>: op2 chosen by a symbolic selector among %d lazy operators (a third of '
-                                  'the table); len($c)<=2, symbolic int arguments and lambda constants; tuple and '
-                                  'one-shot iterator; every intermediate consumed once; call API'
-                                  % (OPS[s1][0], len(third))})
+        for s1 in [s for s in range(NOPS) if s % 6 == seed % 6]:
+            tn = (seed // 6 + s1) % 6
+            sixth = list(range(tn, NOPS, 6))
+            out.append({'name': 'pipe2[%s|sixth%d]' % (OPS[s1][0], tn), 'func': 'h_pipe', 'timeout': 200,
+                        'param': {'s1': s1, 'depth': 2, 'mode': 'api', 'n': 2, 's2set': sixth, 'imargin': 0},
+                        'bounds': '$c.%s.<op2>: op2 chosen by a symbolic selector among %s; len($c)<=2, symbolic int '
+                                  'arguments and lambda constants; tuple and one-shot iterator; every intermediate '
+                                  'consumed once; call API' % (OPS[s1][0], [OPS[x][0] for x in sixth])})
     else:
         for s1 in range(NOPS):
             for hn, half in enumerate(halves):
